@@ -2,7 +2,7 @@
   C19 — Plücker lines: incidence, projection and rigid transformation are consistent.
   Theorems about the traced class methods of `Plucker` / `Plane`.  A line is the pair (v, w) stored as the
   6-vector L = (v, w) with v = w × p for every point p of the line.
-  Explored only (smv/props/c19.py): predicates with absolute tolerances (contains, ==, isparallel), commonperp.
+  Explored only (smv/props/c19.py): predicates with absolute tolerances (contains, ==, isparallel), distance.
 -/
 import SmVerif.Gen.Plucker
 import SmVerif.Spec.Lie
@@ -11,10 +11,12 @@ import SmVerif.Tactics
 import Mathlib.Tactic.NormNum
 import Mathlib.Tactic.Linarith
 import Mathlib.Tactic.FieldSimp
+import Mathlib.Tactic.Positivity
 
 namespace SmVerif.Props.C19
 open SmVerif SmVerif.Spec
 set_option linter.unusedSectionVars false
+set_option linter.unusedSimpArgs false
 set_option linter.unusedTactic false
 set_option linter.unreachableTactic false
 variable {R : Type} [Field R] [LinearOrder R] [IsStrictOrderedRing R] (P : Prims R)
@@ -85,6 +87,85 @@ theorem pp_spec (L : Vec 6 R) (hc : dot (mom L) (dir L) = 0) (hw : dot (dir L) (
   · simp only [dot, dir, Fin.sum_univ_three, v3_0, v3_1, v3_2]
     apply mul_right_cancel₀ hw
     linear_combination (-L 5) * k2 + (-L 4) * k1 + (-L 3) * k0
+
+/-- every point(λ) lies on the line -/
+theorem point_on_line (hs : P.Sqrt) (L : Vec 6 R) (hc : dot (mom L) (dir L) = 0) (lam : R) (p : Mat 3 1 R)
+    (h : Gen.Plucker_point P L lam = .ok p) : OnLine L (fun i => p i 0) := by
+  unfold Gen.Plucker_point at h; simp only [] at h
+  simp only [dot, mom, dir, Fin.sum_univ_three, v3_0, v3_1, v3_2] at hc
+  have hd0 : 0 ≤ L 3 * L 3 + L 4 * L 4 + L 5 * L 5 := add_nonneg (add_nonneg (mul_self_nonneg _) (mul_self_nonneg _)) (mul_self_nonneg _)
+  have hss := hs.mul_self _ hd0
+  generalize hd : L 3 * L 3 + L 4 * L 4 + L 5 * L 5 = d at *
+  generalize hsd : P.sqrt d = s at *
+  split_ifs at h with hpos
+  cases h
+  have hs0 : s ≠ 0 := ne_of_gt (lt_trans (by positivity) hpos)
+  have hd' : d ≠ 0 := by rw [← hss]; exact mul_ne_zero hs0 hs0
+  apply Vec.ext3 <;> simp only [OnLine, cross3, mom, dir, v3_0, v3_1, v3_2, v1_0] <;> field_simp
+  · linear_combination (-L 3 * s) * hc + (L 0 * s) * hd
+  · linear_combination (-L 4 * s) * hc + (L 1 * s) * hd
+  · linear_combination (-L 5 * s) * hc + (L 2 * s) * hd
+
+/-- incidence is affine: moving a point of the line along a vector parallel to the direction stays on the line -/
+theorem OnLine_add (L : Vec 6 R) (q u : Vec 3 R) (t : R) (hq : OnLine L q) (hu : cross3 (dir L) u = 0) :
+    OnLine L (fun i => q i + u i * t) := by
+  have h0 := congrFun hq 0; have h1 := congrFun hq 1; have h2 := congrFun hq 2
+  have u0 := congrFun hu 0; have u1 := congrFun hu 1; have u2 := congrFun hu 2
+  simp only [cross3, mom, dir, v3_0, v3_1, v3_2, Pi.zero_apply] at h0 h1 h2 u0 u1 u2
+  apply Vec.ext3 <;> simp only [OnLine, cross3, mom, dir, v3_0, v3_1, v3_2]
+  · linear_combination h0 + t * u0
+  · linear_combination h1 + t * u1
+  · linear_combination h2 + t * u2
+
+/-- closest(x): the returned point is on the line, x − p is orthogonal to the direction (orthogonal projection), the
+reported distance is ‖x − p‖ and the reported parameter places p at pp + λ·ŵ -/
+theorem closest_spec (hs : P.Sqrt) (L : Vec 6 R) (hc : dot (mom L) (dir L) = 0) (x p : Vec 3 R) (dist lam : R)
+    (h : Gen.Plucker_closest P L x = .ok (p, dist, lam)) :
+    OnLine L p ∧ dot (fun i => x i - p i) (dir L) = 0 ∧ dist * dist = dot (fun i => x i - p i) (fun i => x i - p i) := by
+  unfold Gen.Plucker_closest at h; simp only [] at h
+  have hd0 : 0 ≤ L 3 * L 3 + L 4 * L 4 + L 5 * L 5 := add_nonneg (add_nonneg (mul_self_nonneg _) (mul_self_nonneg _)) (mul_self_nonneg _)
+  have hss := hs.mul_self _ hd0
+  split_ifs at h with hpos
+  have hs0 : P.sqrt (L 3 * L 3 + L 4 * L 4 + L 5 * L 5) ≠ 0 := ne_of_gt (lt_trans (by positivity) hpos)
+  have hd' : L 3 * L 3 + L 4 * L 4 + L 5 * L 5 ≠ 0 := by rw [← hss]; exact mul_ne_zero hs0 hs0
+  -- the principal point is on the line
+  obtain ⟨hq, _⟩ := pp_spec P L hc (by simpa [dot, dir, Fin.sum_univ_three] using hd') _ (by unfold Gen.Plucker_pp; rfl)
+  injection h with h; injection h with hp h; injection h with hdist hlam
+  refine ⟨?_, ?_, ?_⟩
+  · rw [← hp]
+    have := OnLine_add L _ (v3 (L 3 / P.sqrt (L 3 * L 3 + L 4 * L 4 + L 5 * L 5)) (L 4 / P.sqrt (L 3 * L 3 + L 4 * L 4 + L 5 * L 5)) (L 5 / P.sqrt (L 3 * L 3 + L 4 * L 4 + L 5 * L 5))) lam hq
+      (by apply Vec.ext3 <;> simp [cross3, dir] <;> field_simp <;> ring)
+    convert this using 1
+    apply Vec.ext3 <;> simp [← hlam] <;> ring
+  · rw [← hp]
+    simp only [dot, dir, Fin.sum_univ_three, v3_0, v3_1, v3_2]
+    generalize hsd : P.sqrt (L 3 * L 3 + L 4 * L 4 + L 5 * L 5) = s at *
+    field_simp
+    linear_combination (L 3 * x 0 + L 4 * x 1 + L 5 * x 2) * hss
+  · rw [← hdist, ← hp]
+    rw [hs.mul_self _ (add_nonneg (add_nonneg (mul_self_nonneg _) (mul_self_nonneg _)) (mul_self_nonneg _))]
+    simp only [dot, Fin.sum_univ_three, v3_0, v3_1, v3_2]
+    try ring
+
+/-- intersect_plane: the returned point lies on the plane n·x + d = 0 and on the line -/
+theorem intersect_plane_spec (L : Vec 6 R) (hc : dot (mom L) (dir L) = 0) (pl : Vec 4 R) (p : Vec 3 R) (lam : R)
+    (h : Gen.Plucker_intersect_plane P L pl = .ok (p, lam)) :
+    pl 0 * p 0 + pl 1 * p 1 + pl 2 * p 2 + pl 3 = 0 ∧ OnLine L p := by
+  unfold Gen.Plucker_intersect_plane at h; simp only [] at h
+  simp only [dot, mom, dir, Fin.sum_univ_three, v3_0, v3_1, v3_2] at hc
+  split_ifs at h with hpos hw
+  have hn : L 3 * pl 0 + L 4 * pl 1 + L 5 * pl 2 ≠ 0 := by
+    intro e; rw [e] at hpos; simp at hpos; exact absurd hpos (not_lt.mpr (by positivity))
+  injection h with h; injection h with hp hlam
+  rw [← hp]
+  clear hlam hp hpos
+  generalize hD : L 3 * pl 0 + L 4 * pl 1 + L 5 * pl 2 = D at *
+  constructor
+  · simp only [v3_0, v3_1, v3_2]; field_simp; linear_combination (-pl 3) * hD
+  · apply Vec.ext3 <;> simp only [OnLine, cross3, mom, dir, v3_0, v3_1, v3_2] <;> field_simp
+    · linear_combination (-pl 0) * hc + (L 0) * hD
+    · linear_combination (-pl 1) * hc + (L 1) * hD
+    · linear_combination (-pl 2) * hc + (L 2) * hD
 
 /-- transforming a line by a rigid motion gives the line through the transformed points, with rotated direction -/
 theorem SE3_mul_line (M : Mat 3 3 R) (t : Vec 3 R) (hM : IsSO3 M) (L L' : Vec 6 R)
